@@ -363,7 +363,10 @@ func buildFormula(root *Node, targets []*Node) string {
 					// that fails must not make it look unreachable, so no obligation is assumed here
 					break
 				}
-				if n.T.S != "true" {
+				if n.T.S != "true" && n.T.S != "false" {
+					// (an obligation that is literally false - a blocking call that no "wakes" clause
+					// can be met at, for instance - is reported on its own; assuming it would make
+					// everything after it vacuously true)
 					conj = append(conj, n.T.S)
 				}
 			case NBranch:
